@@ -75,7 +75,7 @@ def run_check(prop, tier, seed):
     # the source differs from the fingerprints the model was reconciled with, in a file this property is
     # anchored in: explore several seeds' worth of inputs (a deeper search, not an alarm by itself)
     changed = core.changed_functions()
-    escalated = tier == "quick" and core.touches(prop, changed)
+    escalated = tier == "quick" and core.touches(prop, changed) and not os.environ.get("VERIF_NO_ESCALATE")
     if escalated:
         seen_cases = {json.dumps(c, sort_keys=True, default=str) for c in cases}
         for k in range(1, ESCALATION_ROUNDS):
